@@ -184,6 +184,14 @@ def run(out, replay_path=None):
         },
     }
 
+    if pid == 'C06' and not confirmed:
+        # "a later flush (on the sink, or through the client, including through a queuing wrapper)": the delegations
+        deleg = flush_delegations(prog, out)
+        out.evidence['coverage']['flush_delegation'] = deleg['summary']
+        out.evidence['coverage']['obligations'] += deleg['obligations']
+        out.evidence['coverage']['discharged'] += deleg['obligations'] - len(deleg['findings'])
+        if deleg['findings']:
+            out.inconclusive.append('flush delegation: ' + deleg['findings'][0])
     if confirmed:
         seen = set()
         for f, o, hit, prof in confirmed:
@@ -219,3 +227,54 @@ def run(out, replay_path=None):
     if mine and not (inductive_broken or scen):
         out.inconclusive.append('native oracle reports %s on a random scenario although every solver obligation passed: %s'
                                 % (pid, json.dumps(mine[0])[:500]))
+
+
+def flush_delegations(prog, out):
+    """StatsdClient::flush and QueuingMetricSink::flush hand the call to the wrapped sink's flush exactly once and
+    return its outcome."""
+    from . import queue_model as qm, client_model as cm
+    from .executor import Explorer
+    from .values import Cell, Ref
+    from .stubs import is_variant
+    findings, obligations = [], 0
+    x = qm.Extraction(prog, 'bounded', False)
+    P = x.run_program('flush')
+    for ops, leaf in P.paths:
+        obligations += 1
+        kinds = [o['kind'] for o in ops]
+        if kinds != ['wrapped_flush'] or leaf[1] != 'token':
+            findings.append("QueuingMetricSink::flush is not exactly the wrapped sink's flush: %s -> %r" % (kinds, leaf))
+    ex = Explorer(prog, timeout_ms=60000, seed=out.seed)
+    cm.install(ex)
+    cfg = cm.Config(prefix_dots=0)
+    ex.assumptions = cm.len_assumptions(cm.input_names(cfg), cfg)
+    ex.var_bounds = cm.len_bounds(cm.input_names(cfg))
+    seen = {'ok': 0, 'err': 0}
+
+    def entry(ex):
+        client = cm.build_client(ex, prog, cfg)
+        c = Cell(client, 'client')
+        ex.out['e0'] = len(ex.events)
+        return ex.call(prog.find_impl_method('flush', 'StatsdClient'), [Ref(c)])
+
+    def on_path(ex, r, status):
+        nonlocal obligations
+        obligations += 1
+        evs = [e for e in ex.events[ex.out['e0']:] if e[0] == 'sink_flush']
+        if status != 'ok' or len(evs) != 1:
+            findings.append('StatsdClient::flush: %s, %d sink flush calls' % (status, len(evs)))
+            return
+        if evs[0][1] == 'ok':
+            seen['ok'] += 1
+            if not is_variant(r, 'Ok'):
+                findings.append('StatsdClient::flush returned %r although the sink flushed' % (r,))
+        else:
+            seen['err'] += 1
+            good = is_variant(r, 'Err') and cm.error_kind(ex, prog, r.fields[0]) == 'IoError' and any(t.ident == evs[0][2].ident for t in cm.find_tokens(r.fields[0]))
+            if not good:
+                findings.append("StatsdClient::flush does not return the sink's error")
+
+    ex.run(entry, on_path)
+    if not (seen['ok'] and seen['err']):
+        findings.append('vacuous: client flush paths %r' % seen)
+    return {'findings': findings, 'obligations': obligations, 'summary': {'queuing_flush_paths': len(P.paths), 'client_flush_paths': seen}}
